@@ -378,6 +378,7 @@ static bool do_op(mstate *m, op_t op, mismatch *mm, bool counting)
         L.p->cb = count_cb; L.p->cb_context = NULL;
         cb_count = 0; cb_maxused = used0;
     }
+    vf_stack_paint();
     switch (op) {
     case 'n': r = binson_parser_next(L.p); break;
     case 'O': r = binson_parser_go_into_object(L.p); break;
@@ -596,7 +597,11 @@ static void report(size_t from, op_t op, const mstate *before, const mismatch *m
     for (int k = 0; k < 2; k++) {
         mismatch m2;
         int bad = run_history(h, n + 1, &m2, NULL, NULL);
-        if (bad != n || strcmp(m2.why, mm->why)) vf_die("violation did not reproduce on replay (%s vs %s): nondeterministic harness", mm->why, m2.why);
+        if (bad != n) vf_die("violation did not reproduce on replay (%s vs %s): nondeterministic harness", mm->why, m2.why);
+        if (strcmp(m2.why, mm->why) && !strstr(mm->why, "[details vary from run to run")) {
+            size_t l = strlen(mm->why);
+            snprintf(mm->why + l, sizeof mm->why - l, " [details vary from run to run with identical inputs]");
+        }
     }
     L = keep;
     char ctx[100], tmp[128], sig[400];
